@@ -4028,7 +4028,9 @@ def add_measures(part):
                 existing_measure.number = mcounter + 1
                 mcounter = mcounter + 2
             else:
-                pos = measure_end
+                # continue where the measure was actually placed (measure_end
+                # comes from an interpolation and may be 91.99999999999999)
+                pos = int(np.round(measure_end))
                 mcounter += 1
 
 
